@@ -218,5 +218,24 @@ def run_lines(binary, args, lines, timeout=3600):
     return rc, res, err
 
 
+PATHS = ["samples", "trait", "ref", "dyn", "dynsamples"]
+PATH_KINDS = ("uint ", "dice ", "alnum ", "f01 ", "ufloat ", "expd ", "norm ", "lnorm ", "zig ")
+
+
+def with_api_paths(reqs, rng, share=3):
+    """the API path a sample is drawn along is part of the input space: one request in `share` names another path than Random::sample
+    (the samples() iterator, the trait method, the reference blanket impl, the generator behind Random<dyn Rng>). The model is path-blind."""
+    out = []
+    for q in reqs:
+        if q.startswith(PATH_KINDS) and " path=" not in q and " via=chance" not in q and " via=float01" not in q and " via=sampler" not in q and " via=range" not in q and rng.chance(1, share):
+            head, _, tail = q.partition(" ")
+            q = "%s path=%s %s" % (head, rng.choice(PATHS), tail)
+        elif q.startswith("std ") and " path=" not in q and rng.chance(1, share):
+            head, _, tail = q.partition(" ")
+            q = "%s path=%s %s" % (head, rng.choice(["stdsample", "stdtrait"]), tail)
+        out.append(q)
+    return out
+
+
 def driver_path():
     return os.path.join(LEAN_DIR, ".lake", "build", "bin", "urandom_model")
